@@ -23,7 +23,7 @@ Driver for the C19 correspondence.  One request per line (strings are '.'-separa
   `lex <env> <ls> <lc> <keep> <src>`          → `Lexer.tokeniter`: tokens joined by `;`: `<lineno> <type> <value>` |
                                                  `<lineno> E <error> [<c> [<expected>]]` | `F`;  `-` when there is none
   `ptok <env> <ls> <lc> <keep> <seq> <src>`   → `wrap(tokeniter)`: `<lineno> <type> <value> <0|1 parser wraps>` | error as above
-                                                 env: `<S|B|O><lstrip><trim>` e.g. `B01`; ls / lc: line statement / comment
+                                                 env: `<S|B|O><lstrip><trim>[o]` e.g. `B01` (`o`: parser as found); ls / lc: line statement / comment
                                                  prefix or `~` (None); seq = newline_sequence
   `tree <env> <ls> <lc> <keep> <seq> <src>`   → lexer → tags → `Parser.subparse`: `ok <nodes>` | `err eof` | `err unknown <name>` |
                                                  `err fuel` | `none` (lexer error / open tag); nodes joined by `,`:
@@ -117,7 +117,11 @@ def realTables : Tables where
 def parseOptStr (s : String) : Option (Option Str) :=
   if s = "~" then some none else (decodeStr s).map some
 
-def parseEnv (s ls lc : String) : Option Env :=
+/-- a fourth character `o` selects the parser as found (marker test `endswith('*')`) for `ptok` / `tree` / `render` -/
+def oldParser (s : String) : Bool := s.length = 4 && s.back = 'o'
+
+def parseEnv (s0 ls lc : String) : Option Env :=
+  let s := if oldParser s0 then (s0.dropEnd 1).toString else s0
   match s.toList, parseOptStr ls, parseOptStr lc with
   | [v, l, t], some ls, some lc =>
     let flags : Option (Bool × Bool) :=
@@ -148,9 +152,9 @@ def showTok : Nat × Tok → String
   | (l, .err e) => s!"{l} E {errName e}"
   | (_, .outOfFuel) => "F"
 
-def showPTok (p : PTok) : String :=
+def showPTok (old : Bool) (p : PTok) : String :=
   match p with
-  | .tok l t v => s!"{l} {ttName t} {encodeStr v} {if parserWraps p then 1 else 0}"
+  | .tok l t v => s!"{l} {ttName t} {encodeStr v} {if (if old then parserWrapsBeforeFix p else parserWraps p) then 1 else 0}"
   | .err l e => s!"{l} E {errName e}"
   | .outOfFuel => "F"
 
@@ -166,7 +170,7 @@ def answerFull (line : String) : Option String :=
     | _, _, _ => none
   | ["ptok", env, ls, lc, keep, seq, src] =>
     match parseEnv env ls lc, parseBool keep, decodeStr seq, decodeStr src with
-    | some e, some keep, some seq, some src => some (joinOr ((tokenize e realTables keep seq src).map showPTok))
+    | some e, some keep, some seq, some src => some (joinOr ((tokenize e realTables keep seq src).map (showPTok (oldParser env))))
     | _, _, _, _ => none
   | _ => none
 
@@ -209,7 +213,7 @@ def answerParse (line : String) : Option String :=
       match groupItems none (tokenize e realTables keep seq src) with
       | none => some "none"
       | some items =>
-        match parseItems coreStmts items with
+        match parseItems (if oldParser env then coreStmtsBeforeFix else coreStmts) items with
         | .ok ns => some s!"ok {showNodes ns}"
         | .error .unexpectedEof => some "err eof"
         | .error (.unknownTag n) => some s!"err unknown {encodeStr n}"
@@ -218,7 +222,7 @@ def answerParse (line : String) : Option String :=
   | ["render", env, ls, lc, keep, seq, src, ex, co, cn, si] =>
     match parseEnv env ls lc, parseBool keep, decodeStr seq, decodeStr src, parsePairs ex, parsePairs co, parsePairs cn, parsePairs si with
     | some e, some keep, some seq, some src, some ex, some co, some cn, some si =>
-      match renderTemplate e realTables coreStmts (mkVal ex co cn si) keep seq src with
+      match renderTemplate e realTables (if oldParser env then coreStmtsBeforeFix else coreStmts) (mkVal ex co cn si) keep seq src with
       | some out => some s!"ok {encodeStr out}"
       | none => some "none"
     | _, _, _, _, _, _, _, _ => none
